@@ -93,6 +93,7 @@ type Ctx struct {
 	sample any
 	incon  string
 	nviol  int
+	nown   int // violations attributed to the running check's own property
 }
 
 func (c *Ctx) emit(r Rec) {
@@ -106,6 +107,12 @@ func (c *Ctx) Viol(props []string, sig, msg string, detail any) {
 	c.mu.Lock()
 	c.nviol++
 	n := c.nviol
+	for _, p := range props {
+		if p == c.Prop {
+			c.nown++
+			break
+		}
+	}
 	c.mu.Unlock()
 	if n > 40 { // one scenario cannot flood the log
 		return
@@ -180,10 +187,17 @@ func WorkerMain(prop, tier string, seed uint64, scns []int, outPath, tmp string,
 	}
 	defer f.Close()
 	enc := json.NewEncoder(f)
-	for _, scn := range scns {
+	violating := 0
+	for si, scn := range scns {
 		part, local := locate(chk, tier, scn)
 		if part == nil {
 			continue
+		}
+		if violating >= 6 && !replay {
+			// the point is made: do not grind through every remaining scenario of a tree that is plainly broken
+			c := &Ctx{out: enc}
+			c.emit(Rec{T: "done", Scn: scn, Part: "skipped", Counts: map[string]int64{"scenarios_skipped_after_repeated_violations": int64(len(scns) - si)}})
+			break
 		}
 		c := &Ctx{Prop: prop, Tier: tier, Seed: seed, Scn: scn, Local: local, Part: part.Name, Race: race, Replay: replay, Tmp: tmp,
 			out: enc, cells: map[string]struct{}{}, counts: map[string]int64{}, maxes: map[string]int64{}}
@@ -225,6 +239,9 @@ func WorkerMain(prop, tier string, seed uint64, scns []int, outPath, tmp string,
 			cells = append(cells, k)
 		}
 		sort.Strings(cells)
+		if c.nown > 0 {
+			violating++
+		}
 		c.emit(Rec{T: "done", Scn: scn, Part: part.Name, Local: local, Cells: cells, Counts: c.counts, Maxes: c.maxes, Sample: c.sample, Incon: c.incon})
 	}
 	c := &Ctx{out: enc}
